@@ -1,17 +1,17 @@
 SPECIFICATION Spec
 CONSTANTS
-  WorkerCpus <- B_Workers
-  WorkerGroup <- B_Groups
-  Menu <- B_Menu
-  Classes <- B_Classes
-  MaxLosses = 1
-  MaxCancels = 0
+  WorkerCpus <- J_Workers
+  WorkerGroup <- J_Groups
+  Menu <- J_Menu
+  Classes <- J_Classes
+  MaxLosses = 2
+  MaxCancels = 1
   MaxFails = 1
-  MaxLaunchFails = 1
+  MaxLaunchFails = 0
   PfReserve = 0
-  PfMax = 1
+  PfMax = 0
   Eager = TRUE
-  Journaling = FALSE
+  Journaling = TRUE
 CHECK_DEADLOCK FALSE
 INVARIANTS
   NoPanic
@@ -47,5 +47,10 @@ INVARIANTS
   C05_MnWorkersIdle
   C01_OutcomeAtRest
   C02_QuiescentOk
+  J_RestoreSucceeds
+  J_OutcomesRestored
+  J_InstFresh
+  J_CrashKept
+  J_DepsConsistent
 PROPERTIES
   StepProps
